@@ -76,6 +76,10 @@ SHAPES = {
     'oneofmap': Raw('!oneof {discriminator: d, one_of: {a: !expr $.input}}'), 'oneofempty': Raw('!oneof {discriminator: d, one_of: {}}'),
     'waitopt': Raw('!wait-optional $.input.x'), 'softoptmap': Raw('!soft-optional {a: 1}'), 'ordisabledbad': Raw('!ordisabled $.input.x'),
     'alias': Raw('*anch'), 'nonscalarkey': Raw('{? [x, y] : 1}'), 'unknowntag': Raw('!bogus x'), 'binarytag': Raw('!!binary aGVsbG8='),
+    # malformed expression texts (the expression parser is part of what a workflow file reaches)
+    'danglingop': Raw('!expr $.input.x =='), 'unbalanced': Raw('!expr ($.input.x'), 'emptyexpr': Raw('!expr ""'), 'opsonly': Raw('!expr "+"'),
+    'openfunc': Raw('!expr foo('), 'trailingdot': Raw('!expr $.input.'), 'openbracket': Raw('!expr "$.input.x["'), 'openstring': Raw("!expr '$.input.x == \"abc'"),
+    'deepparen': Raw('!expr "' + '(' * 40 + '1' + ')' * 40 + '"'), 'danglingnot': Raw('!expr "!"'), 'doubledot': Raw('!expr $..x'),
     'rootexpr': Raw('!expr $'), 'deepseq': Raw('[' * 60 + ']' * 60), 'mergekey': Raw('{<<: {a: 1}}'), 'REMOVED': None,
 }
 
@@ -187,7 +191,10 @@ def run(ctx):
                 keep.append(c)
                 seen_s.add(c[1])
                 seen_p.add(c[0])
-        prio = [c for c in corr if c[0] in ('wf:steps/loop/workflow', 'wf:steps/loop/kind', 'wf:steps/a/plugin', 'wf:steps/loop', 'wf:steps', 'wf:input/objects/RootObject/id', 'in:items')]
+        prio = [c for c in corr if c[0] in ('wf:steps/loop/workflow', 'wf:steps/loop/kind', 'wf:steps/a/plugin', 'wf:steps/loop', 'wf:steps', 'wf:input/objects/RootObject/id', 'in:items',
+                                            'wf:input/root', 'wf:input/objects', 'wf:input/objects/Item', 'wf:input/objects/RootObject', 'sub:input/root', 'sub:input/objects/SubIn',
+                                            'wf:steps/a/enabled', 'sub:steps/w/input/id', 'wf:outputs/success/r',
+                                            'wf:input/objects/RootObject/properties/items/type/items/id')]
         cases = keep + prio + cases[:30]
     jobs = []
     anchor = 'anchors: &anch v0\n'     # makes the alias shape resolvable
